@@ -4,6 +4,13 @@
 import BumpverVerif.Model.Vcs
 namespace BV
 
+theorem dropLast_append_of_getLast? {α} {l : List α} {a : α} (h : l.getLast? = some a) :
+    l.dropLast ++ [a] = l := by
+  have hne : l ≠ [] := by rintro rfl; simp at h
+  rw [List.getLast?_eq_some_getLast hne] at h
+  cases h
+  exact List.dropLast_concat_getLast hne
+
 /-! ### `fmtGo` / `pyFormat` -/
 
 theorem wordChar_ne_rbrace {c : Char} (h : (isAlnum c || c == '_') = true) : c ≠ '}' := by
